@@ -146,10 +146,12 @@ def special_pay_before_intent(src):
     return None
 
 only = sys.argv[1] if len(sys.argv)>1 else ''
+skip = set(sys.argv[2].split(',')) if len(sys.argv)>2 else set()
 assert sh('git status --porcelain --untracked-files=no', REPO).stdout.strip()=='' , '/repo dirty'
 results=[]
 for name,file,old,new,checks,count in M:
     if only and only not in name: continue
+    if name in skip: continue
     if old is None: continue
     path=os.path.join(REPO,file)
     src=open(path).read()
@@ -157,8 +159,8 @@ for name,file,old,new,checks,count in M:
         print(f"{name}: PATTERN-NOT-FOUND ({src.count(old)})"); continue
     open(path,'w').write(src.replace(old,new))
     try:
-        t=sh('cargo test --offline 2>&1 | grep -E "^error|test result"', REPO)
-        tests='pass' if 'ok. 56 passed' in t.stdout else ('BUILD-ERR' if 'error' in t.stdout else 'suite-FAILS:'+t.stdout.strip().split('\n')[-1][:60])
+        t=sh('timeout 150 cargo test --offline 2>&1 | grep -E "^error|test result"; pkill -x -f "/repo/target/debug/deps/trampoline-[0-9a-f]*" >/dev/null 2>&1', REPO)
+        tests='pass' if 'ok. 56 passed' in t.stdout else ('BUILD-ERR' if 'error' in t.stdout else ('suite-HANGS' if 'test result' not in t.stdout else 'suite-FAILS:'+t.stdout.strip().split('\n')[-1][:60]))
         out=[]
         for c in checks:
             r=sh(f'./check {c} --tier quick 2>&1', '/verif')
